@@ -18,6 +18,7 @@ code.
 """
 # pylint: disable=protected-access,too-many-nested-blocks
 import numpy as np
+import sympy
 
 import blackbird
 
@@ -84,8 +85,8 @@ def from_blackbird(bb: blackbird.BlackbirdProgram) -> Program:
 
                 # Convert symbolic expressions in args/kwargs containing measured and free parameters to
                 # symbolic expressions containing the corresponding MeasuredParameter and FreeParameter instances.
-                args = sfpar.par_convert(args, prog)
-                vals = sfpar.par_convert(kwargs.values(), prog)
+                args = sfpar.par_convert([_expression(a) for a in args], prog)
+                vals = sfpar.par_convert([_expression(v) for v in kwargs.values()], prog)
                 kwargs = dict(zip(kwargs.keys(), vals))
                 gate(*args, **kwargs) | regrefs  # pylint:disable=expression-not-assigned
             else:
@@ -160,8 +161,8 @@ def from_blackbird_to_tdm(bb: blackbird.BlackbirdProgram) -> TDMProgram:
 
                 # Convert symbolic expressions in args/kwargs containing measured and free parameters to
                 # symbolic expressions containing the corresponding MeasuredParameter and FreeParameter instances.
-                args = sfpar.par_convert(args, prog)
-                vals = sfpar.par_convert(kwargs.values(), prog)
+                args = sfpar.par_convert([_expression(a) for a in args], prog)
+                vals = sfpar.par_convert([_expression(v) for v in kwargs.values()], prog)
                 kwargs = dict(zip(kwargs.keys(), vals))
                 gate(*args, **kwargs) | regrefs  # pylint:disable=expression-not-assigned
             else:
@@ -177,6 +178,18 @@ def from_blackbird_to_tdm(bb: blackbird.BlackbirdProgram) -> TDMProgram:
         prog.backend_options["cutoff_dim"] = bb.target["options"]["cutoff_dim"]
 
     return prog
+
+
+def _expression(a):
+    """:func:`to_blackbird` writes an expression of free parameters as a string in which the
+    parameters appear as ``{name}``; returns the expression such a string represents (other
+    arguments are returned as they are)."""
+    if isinstance(a, str) and "{" in a:
+        try:
+            return sfpar.par_from_str(a)
+        except (sympy.SympifyError, SyntaxError, TypeError):
+            return a
+    return a
 
 
 def _tdm_array(values):
